@@ -10,7 +10,7 @@
     data race is not expressible in them.  That half of the property is runtime evidence: the
     harness runs diff + sign, rediff and bsdiff in a `go build -race` binary on every check
     (checks/props/C15.json, "trusted_base").  The level of C15 is therefore *partial*. *)
-From Wharf Require Import Base.Prelude Conc.Fanout Conc.FanoutProofs Conc.Collector Conc.CollectorProofs.
+From Wharf Require Import Base.Prelude Conc.Fanout Conc.FanoutProofs Conc.Collector Conc.CollectorProofs Conc.Pick Conc.PickProofs.
 
 (** For every upstream chunking (the reads of the source pool, however short, empty reads
     included), every pair of consumer buffer sizes and every interleaving of the producer,
@@ -87,3 +87,20 @@ Example collector_instance :
   let s := crun nat ms 4 2 2 (concat (repeat [CWorker 1; CDispatch; CWorker 0; CCollect] 40)) (init_collector nat 2) in
   cclosed nat s = true /\ cout nat s = [10; 11; 12; 20; 30; 31].
 Proof. exact collector_example. Qed.
+
+(** The optimizer's choice of the old file a new file is bsdiff'ed against (rediff.go,
+    analyzePatch): the repaired loop visits the candidates by file index, so whatever order
+    the Go map hands them out in ([Permutation]) the choice is the same ... *)
+Theorem optimize_choice_deterministic :
+  forall (l l' : list Pick.cand),
+    NoDup (map Pick.cidx l) -> Permutation.Permutation l l' -> Pick.pick_sorted l = Pick.pick_sorted l'.
+Proof. exact PickProofs.pick_sorted_deterministic. Qed.
+Print Assumptions optimize_choice_deterministic.
+
+(** ... while the unchanged loop, which follows the map's order, does not (two old files
+    with equal claims on a new file of another name: the corpus case of the harness). *)
+Theorem optimize_choice_refuted :
+  exists (l l' : list Pick.cand),
+    NoDup (map Pick.cidx l) /\ Permutation.Permutation l l' /\ Pick.pick_in_order l <> Pick.pick_in_order l'.
+Proof. exact PickProofs.pick_in_order_refuted. Qed.
+Print Assumptions optimize_choice_refuted.
